@@ -53,12 +53,14 @@ def cases(tier, seed):
         ps = gen.rand_spec(rng, FAMS, nmax=4, nmin=2, boxes=("none", "mixed", "boxed"), starts=("interior", "face"))
         yield {"problem": ps, "mode": gen.pick(rng, ["callable", "callable", None, "2-point"]), "maxcor": int(rng.integers(1, 5)),
                "maxiter": int(rng.integers(2, 6)), "rot": int(rng.integers(0, 11)),
-               "iprint": int(gen.pick(rng, [0, 1, 99, 100, 101])) if i % 3 == 1 else None, "maxls": int(gen.pick(rng, [2, 3, 5, 5]))}
+               "iprint": int(gen.pick(rng, [0, 1, 99, 100, 101])) if i % 3 == 1 else None, "maxls": int(gen.pick(rng, [2, 3, 5, 5])), "fd_arrays": bool(i % 2 == 0)}
 
 
 def make_cfg(spec):
     cfg = dict(jac=spec["mode"], maxcor=spec["maxcor"], maxiter=spec["maxiter"], maxls=int(spec.get("maxls", 5)), ftol=0.0, gtol=1e-10, gtol_callable=True,
                ftarget=-1e300, ftarget_callable=True, cb="never", ufd="identity", scaler=2.0, maxfun=10000)
+    if spec.get("fd_arrays") and spec["mode"] != "callable":
+        cfg.update(fd_steps_as_strided_arrays=True, eps=1e-7, finite_diff_rel_step=1e-6 if spec["mode"] is not None else None)
     if spec.get("iprint") is not None:
         # verbose tracing through a user-supplied logger: the code paths that format diagnostics run while the fault travels
         cfg.update(logger=True, iprint=spec["iprint"])
